@@ -3,8 +3,11 @@
 package serverinterceptors
 
 // C02 (call sites, zRPC): drives the real UnarySheddingInterceptor with a recording shedder.
-//   ops:  rpc allow=<0/1> err=<kind of error the handler returns> panic=<0/1>
-//   obs:  ret=<what the interceptor returned> ran=<0/1> early=<resolutions seen while the handler ran>
+//   ops:  rpc allow=<0/1> err=<kind of error the handler returns> panic=<how the handler ends> [ctx=<bg|canceled|expired|future>]
+//             panic: 0 returns | 1 panic("verif") | err panic(errors.New) | dlerr panic(context.DeadlineExceeded) |
+//                    nilpanic panic(nil) | goexit runtime.Goexit()   (every call runs on a goroutine of its own)
+//             ctx: the context handed to the interceptor; err=ctxerr makes the handler return the Err() of the context it RECEIVED
+//   obs:  ret=<what the interceptor returned> ran=<0/1> fwd=<1: the handler received the very ctx and req> early=<resolutions seen while the handler ran>
 //         pass=<n> fail=<n> allows=<n> st=<total>/<pass>/<drop>   (deltas of the package's SheddingStat; "reset" if the
 //         once-a-minute reporter zeroed it during the call)
 //   ops:  real depth=<1..4> err=<kind> panic=<0/1>   the REAL adaptive shedder of the section (state kept between calls)
@@ -12,7 +15,10 @@ package serverinterceptors
 //             one returns err / panics
 //   obs:  ran=<n> peak=<flying seen by the innermost handler> flying=<after> avg=<n/d after> st=
 // error kinds: nil deadline wrapped joined canceled stdeadline internal unavailable exhausted plain
-// ret: nil | same (the handler's own error, unchanged) | ResourceExhausted:<message> | panic | other:<text>
+//              typednil (typed nil pointer in a non-nil error) zero (zero-valued struct error) customis (Is(DeadlineExceeded) = true)
+//              multiunwrap (Unwrap() []error holding DeadlineExceeded) stctx (status.FromContextError(DeadlineExceeded))
+//              wrapcanceled osdeadline (os.ErrDeadlineExceeded) ctxerr (the received context's Err())
+// ret: nil | same (the handler's own error, unchanged) | ResourceExhausted:<message> | panic | goexit | other:<text>
 
 import (
 	"context"
@@ -20,9 +26,12 @@ import (
 	"fmt"
 	"io"
 	"math/big"
+	"os"
 	"reflect"
+	"runtime"
 	"strings"
 	"testing"
+	"time"
 
 	"github.com/zeromicro/go-zero/core/load"
 	"github.com/zeromicro/go-zero/core/logx"
@@ -59,10 +68,100 @@ func c02Real(sh load.Shedder) (int64, string) {
 }
 
 var c02ErrKinds = []string{"nil", "nil", "deadline", "deadline", "wrapped", "joined", "canceled", "stdeadline",
-	"internal", "unavailable", "exhausted", "plain"}
+	"internal", "unavailable", "exhausted", "plain", "typednil", "zero", "customis", "multiunwrap", "stctx",
+	"wrapcanceled", "osdeadline", "ctxerr", "ctxerr"}
+
+var c02EndKinds = []string{"1", "1", "err", "dlerr", "nilpanic", "goexit", "goexit"}
+
+type c02PtrErr struct{ s string }
+
+func (e *c02PtrErr) Error() string { return "typed-nil" }
+
+type c02ZeroErr struct{ a, b int }
+
+func (e c02ZeroErr) Error() string { return "zero" }
+
+type c02IsErr struct{}
+
+func (e *c02IsErr) Error() string        { return "custom-is" }
+func (e *c02IsErr) Is(target error) bool { return target == context.DeadlineExceeded }
+
+type c02MultiErr struct{ errs []error }
+
+func (e *c02MultiErr) Error() string   { return "multi" }
+func (e *c02MultiErr) Unwrap() []error { return e.errs }
+
+// c02Ctx builds the context of one call.
+func c02Ctx(kind string) (context.Context, context.CancelFunc) {
+	switch kind {
+	case "canceled":
+		ctx, cancel := context.WithCancel(context.Background())
+		cancel()
+		return ctx, cancel
+	case "expired":
+		return context.WithDeadline(context.Background(), time.Unix(1, 0))
+	case "future":
+		return context.WithTimeout(context.Background(), time.Hour)
+	}
+	return context.Background(), func() {}
+}
+
+// c02End ends the wrapped handler the way the op says (does not return unless kind is "0" / "").
+func c02End(kind string) {
+	switch kind {
+	case "", "0":
+	case "err":
+		panic(errors.New("verif"))
+	case "dlerr":
+		panic(context.DeadlineExceeded)
+	case "nilpanic":
+		panic(nil)
+	case "goexit":
+		runtime.Goexit()
+	default:
+		panic("verif")
+	}
+}
+
+// c02Call runs f on a goroutine of its own and says how it ended: ret | panic | goexit.
+func c02Call(f func()) string {
+	done := make(chan string, 1)
+	go func() {
+		normal := false
+		defer func() {
+			r := recover()
+			switch {
+			case normal:
+				done <- "ret"
+			case r != nil:
+				done <- "panic"
+			default:
+				done <- "goexit"
+			}
+		}()
+		f()
+		normal = true
+	}()
+	return <-done
+}
 
 func c02Err(kind string) error {
 	switch kind {
+	case "typednil":
+		var p *c02PtrErr
+		return p
+	case "zero":
+		return c02ZeroErr{}
+	case "customis":
+		return &c02IsErr{}
+	case "multiunwrap":
+		return &c02MultiErr{errs: []error{io.EOF, context.DeadlineExceeded}}
+	case "stctx":
+		return status.FromContextError(context.DeadlineExceeded).Err()
+	case "wrapcanceled":
+		return fmt.Errorf("handler: %w", context.Canceled)
+	case "osdeadline":
+		return os.ErrDeadlineExceeded
 	case "nil":
 		return nil
 	case "deadline":
@@ -88,29 +187,37 @@ func c02Err(kind string) error {
 
 func c02rGen(r *verifh.Rng) []verifh.Section {
 	var secs []verifh.Section
-	for i := 0; i < verifh.Scale(8, 60); i++ {
+	for i := 0; i < verifh.Scale(16, 60); i++ {
 		var ops []string
 		for j := 0; j < r.Range(6, 24); j++ {
 			allow := 1
 			if r.Chance(1, 4) {
 				allow = 0
 			}
-			pn := 0
-			if r.Chance(1, 6) {
-				pn = 1
+			pn := "0"
+			if r.Chance(1, 4) {
+				pn = c02EndKinds[r.Intn(len(c02EndKinds))]
 			}
-			ops = append(ops, fmt.Sprintf("rpc allow=%d err=%s panic=%d", allow, c02ErrKinds[r.Intn(len(c02ErrKinds))], pn))
+			op := fmt.Sprintf("rpc allow=%d err=%s panic=%s", allow, c02ErrKinds[r.Intn(len(c02ErrKinds))], pn)
+			if strings.Contains(op, "ctxerr") || r.Chance(1, 5) {
+				op += " ctx=" + r.PickS("bg", "canceled", "expired", "expired", "future")
+			}
+			ops = append(ops, op)
 		}
 		secs = append(secs, verifh.Section{Cfg: "handler=rpc", Ops: ops})
 	}
 	for i := 0; i < verifh.Scale(8, 40); i++ {
 		var ops []string
 		for j := 0; j < r.Range(6, 30); j++ {
-			pn := 0
+			pn := "0"
 			if r.Chance(1, 3) {
-				pn = 1
+				pn = c02EndKinds[r.Intn(len(c02EndKinds))]
 			}
-			ops = append(ops, fmt.Sprintf("real depth=%d err=%s panic=%d", r.Pick(1, 1, 2, 3, 4), c02ErrKinds[r.Intn(len(c02ErrKinds))], pn))
+			op := fmt.Sprintf("real depth=%d err=%s panic=%s", r.Pick(1, 1, 2, 3, 4), c02ErrKinds[r.Intn(len(c02ErrKinds))], pn)
+			if strings.Contains(op, "ctxerr") {
+				op += " ctx=" + r.PickS("bg", "canceled", "expired", "future")
+			}
+			ops = append(ops, op)
 		}
 		secs = append(secs, verifh.Section{Cfg: "handler=rpc real=1", Ops: ops})
 	}
@@ -158,17 +265,19 @@ func TestVerifC02R(t *testing.T) {
 						return ic(ctx, req, &grpc.UnaryServerInfo{FullMethod: "/verif/c02"}, handler)
 					}
 					peak, _ = c02Real(real)
-					if kv["panic"] == "1" {
-						panic("verif")
+					c02End(kv["panic"])
+					if kv["err"] == "ctxerr" {
+						return "v", ctx.Err()
 					}
 					return "v", herr
 				}
 				ic = UnarySheddingInterceptor(real, metrics)
 				before := c02Stat()
-				func() {
-					defer func() { recover() }()
-					ic(context.Background(), "req", &grpc.UnaryServerInfo{FullMethod: "/verif/c02"}, handler)
-				}()
+				cctx, cancel := c02Ctx(kv["ctx"])
+				c02Call(func() {
+					ic(cctx, "req", &grpc.UnaryServerInfo{FullMethod: "/verif/c02"}, handler)
+				})
+				cancel()
 				after := c02Stat()
 				st := fmt.Sprintf("%d/%d/%d", after[0]-before[0], after[1]-before[1], after[2]-before[2])
 				if after[0] < before[0] || after[1] < before[1] || after[2] < before[2] {
@@ -182,25 +291,26 @@ func TestVerifC02R(t *testing.T) {
 			}
 			sh := &c02Shedder{allow: kv["allow"] == "1"}
 			herr := c02Err(kv["err"])
-			ran, early := 0, 0
+			ran, early, fwd := 0, 0, 0
+			cctx, cancel := c02Ctx(kv["ctx"])
+			defer cancel()
 			handler := func(ctx context.Context, req any) (any, error) {
 				ran = 1
 				early = sh.pass + sh.fail
-				if kv["panic"] == "1" {
-					panic("verif")
+				if ctx == cctx && req == "req" {
+					fwd = 1
 				}
+				if kv["err"] == "ctxerr" {
+					herr = ctx.Err()
+				}
+				c02End(kv["panic"])
 				return "v", herr
 			}
 			ic := UnarySheddingInterceptor(sh, metrics)
 			before := c02Stat()
 			ret := ""
-			func() {
-				defer func() {
-					if recover() != nil {
-						ret = "panic"
-					}
-				}()
-				val, err := ic(context.Background(), "req", &grpc.UnaryServerInfo{FullMethod: "/verif/c02"}, handler)
+			ended := c02Call(func() {
+				val, err := ic(cctx, "req", &grpc.UnaryServerInfo{FullMethod: "/verif/c02"}, handler)
 				switch {
 				case err == nil && val == "v":
 					ret = "nil"
@@ -215,13 +325,16 @@ func TestVerifC02R(t *testing.T) {
 						ret = "other:" + strings.ReplaceAll(err.Error(), " ", "-")
 					}
 				}
-			}()
+			})
+			if ended != "ret" {
+				ret = ended
+			}
 			after := c02Stat()
 			st := fmt.Sprintf("%d/%d/%d", after[0]-before[0], after[1]-before[1], after[2]-before[2])
 			if after[0] < before[0] || after[1] < before[1] || after[2] < before[2] {
 				st = "reset"
 			}
-			return fmt.Sprintf("ret=%s ran=%d early=%d pass=%d fail=%d allows=%d st=%s", ret, ran, early, sh.pass, sh.fail, sh.allows, st)
+			return fmt.Sprintf("ret=%s ran=%d fwd=%d early=%d pass=%d fail=%d allows=%d st=%s", ret, ran, fwd, early, sh.pass, sh.fail, sh.allows, st)
 		}
 		return step, nil
 	})
